@@ -39,8 +39,6 @@ PARTIAL = [
     {"theorem": "state_var_eq_obj_F, povm_var_eq_obj_F, mprocess_var_eq_obj_F", "missing": "definitional in the model (projEqVarF := projEq); "
      "agreement of the separate _with_var(False) code sites is established by correspondence and oracle (Gate's flat-index routine is "
      "modelled separately and gate_var_eq_obj_F has content)"},
-    {"theorem": "blocks_nearest_partial", "missing": "stated for families of per-block projIneqCore results; not connected by a theorem to the "
-     "executed Povm.projIneq / MProcess.projIneq (sequencing of the per-block Except results via Vector.mapM is not characterised)"},
 ]
 TYPES = ("State", "Povm", "Gate", "MProcess")
 CLS = {"State": State, "Povm": Povm, "Gate": Gate, "MProcess": MProcess}
